@@ -84,6 +84,8 @@ for k5, v5 in json.load(open(V + '/records/round5_breaking_first_pass.json'))['f
     fp[k5] = v5
 for k6, v6 in json.load(open(V + '/records/round6_breaking_first_pass.json'))['first_pass'].items():
     fp[k6] = v6
+for k7, v7 in json.load(open(V + '/records/round7_breaking_first_pass.json'))['first_pass'].items():
+    fp[k7] = v7
 mrows = ['| change | what it does | first pass | reported by (after tuning) |', '|--------|--------------|------------|---------------------------|']
 own = other = missed = 0
 for e in sorted(exps, key=keyf):
